@@ -164,10 +164,16 @@ def judge(case, out):
     return fails
 
 
-def run_batch(binary, sub, cases):
-    p = subprocess.run([binary, sub], input="\n".join(cases) + "\n", stdout=subprocess.PIPE, stderr=subprocess.PIPE, text=True, timeout=1200)
-    out = p.stdout.split("\n")[:len(cases)]
-    return out + ["PANIC"] * (len(cases) - len(out))
+def run_batch(binary, sub, cases, chunk=150):
+    """one process per `chunk` cases: the scenarios leave their (forgotten) loops, eventfds and threads behind, so a long-lived
+    process would run out of file descriptors"""
+    res = []
+    for i in range(0, len(cases), chunk):
+        part = cases[i:i + chunk]
+        p = subprocess.run([binary, sub], input="\n".join(part) + "\n", stdout=subprocess.PIPE, stderr=subprocess.PIPE, text=True, timeout=1200)
+        out = p.stdout.split("\n")[:len(part)]
+        res += out + ["PANIC"] * (len(part) - len(out))
+    return res
 
 
 def run_impl(cases):
